@@ -196,7 +196,9 @@ def doDiscard (s : St) : St :=
 /-- `enable_recording` / `disable_recording` (after F15: switching recording off aborts the recording in flight - from
 that point on its interceptions would go uncaptured) -/
 def doSetEnabled (s : St) (b : Bool) : St :=
-  if b then { s with enabled := true } else { doDiscard s with enabled := false }
+  if b then { s with enabled := true }
+  else if PlaybackModel.Source.disableDiscards then { doDiscard s with enabled := false }      -- as it stands in the source
+  else { s with enabled := false }
 
 /-- `force_sample_recording` -/
 def doForce (s : St) : St :=
